@@ -603,7 +603,8 @@ Section Staging.
     OInv (send_phase w) /\
     (w_tx w = [] -> w_disc w = false ->
        w_q (send_phase w) = [] /\ w_out (send_phase w) = [] /\ w_tx (send_phase w) = [] /\
-       dec (w_wire (send_phase w)) = w_sub (send_phase w) /\ fp (w_wire (send_phase w))).
+       dec (w_wire (send_phase w)) = w_sub (send_phase w) /\ fp (w_wire (send_phase w)) /\
+       (w_error w = 0 -> w_disc (send_phase w) = false /\ w_error (send_phase w) = 0)).
   Proof.
     intros I Hf. unfold send_phase in *.
     destruct (w_disc w) eqn:Ed; [split; [exact I | intros; discriminate]|].
@@ -637,7 +638,10 @@ Section Staging.
     rewrite D1 in Hcomp2. destruct (Hcomp2 T1 Ed Hfin) as (T2 & E2 & _ & Hfl2).
     destruct (Hfl2 Hisf) as (Hdec & Hemp & Hfp).
     rewrite S5, S3, S6, S2, S4. split; [congruence|]. split; [exact Hemp|]. split; [exact T2|].
-    split; [|exact Hfp]. rewrite Hdec, Hsub2, Hsub1, Q1. cbn. rewrite app_nil_r. reflexivity.
+    split; [rewrite Hdec, Hsub2, Hsub1, Q1; cbn; rewrite app_nil_r; reflexivity|].
+    split; [exact Hfp|].
+    intros He0. assert (He2 : w_error w2 = 0) by congruence.
+    subst w3. rewrite He2. cbn. split; congruence.
   Qed.
 
   (* ------------------------------------------------------------------ the read side: light lemmas *)
@@ -770,7 +774,7 @@ Section Staging.
     assert (Hf1 : w_fault (send_phase w) = NoFault) by (eapply mono_nofault; eauto).
     assert (I : OInv w).
     { apply run_OInv; [apply init_OInv|]. eapply mono_nofault; [apply send_phase_light | exact Hf1]. }
-    destruct (send_phase_spec w I Hf1) as [_ C]. destruct (C Ht Hd) as (Q & O & T & D & P).
+    destruct (send_phase_spec w I Hf1) as [_ C]. destruct (C Ht Hd) as (Q & O & T & D & P & _).
     destruct F as (A1 & A2 & A3 & A4 & A5 & A6 & A7).
     pose proof (send_phase_light w) as [(_ & _ & _ & _ & _ & S) _].
     rewrite A5, A7, A3, A2. repeat split; congruence.
@@ -800,14 +804,15 @@ Section Staging.
   Proof.
     intros Hn H. unfold sock_read in H.
     destruct (w_disc w) eqn:Ed.
-    { injection H as <- <- <-. cbn. repeat split; auto. right. repeat split; auto; try lia. all: intros; discriminate. }
+    { injection H as <- <- <-. cbn. repeat split; auto. right. intuition (auto; try lia; try congruence). }
     destruct (w_rx w) as [|[cs| |] rest] eqn:Erx.
-    - injection H as <- <- <-. cbn. repeat split; auto. right. repeat split; auto; lia.
+    - injection H as <- <- <-. cbn. rewrite ?Erx. repeat split; auto. right. cbn. intuition (auto; try lia; try congruence).
     - injection H as <- <- <-. cbn [w_i w_in w_fed w_disc w_fault w_error w_rx set_rx].
       repeat split; auto.
       destruct cs as [|c cs'].
-      + right. rewrite firstn_nil, skipn_nil. cbn. repeat split; auto; try lia.
-        all: intros _ Ho; inversion Ho; subst; cbn in *; congruence.
+      + right. rewrite firstn_nil, skipn_nil. cbn.
+        split; [lia|]. split; [reflexivity|]. split; [reflexivity|].
+        intros _ Ho. inversion Ho; subst. congruence.
       + left. assert (Hne : firstn n (c :: cs') <> []) by (destruct n; [lia | cbn; congruence]).
         assert (Hl : (length (firstn n (c :: cs')) <= n)%nat) by (rewrite firstn_length; lia).
         split; [destruct (firstn n (c :: cs')); cbn; [congruence | lia]|].
@@ -819,9 +824,263 @@ Section Staging.
         * apply is_nil_false in En. split.
           -- cbn [rx_stream]. rewrite <- (firstn_skipn n (c :: cs')) at 1. rewrite app_assoc. reflexivity.
           -- intros Ho. inversion Ho; subst. constructor; assumption.
-    - injection H as <- <- <-. cbn. repeat split; auto. right. repeat split; auto; try lia.
-      all: intros _ Ho; inversion Ho; subst; contradiction.
-    - injection H as <- <- <-. cbn. repeat split; auto. right. repeat split; auto; try lia.
-      all: intros _ Ho; inversion Ho; subst; contradiction.
+    - injection H as <- <- <-. cbn. repeat split; auto. right.
+      split; [lia|]. split; [reflexivity|]. split; [reflexivity|].
+      intros _ Ho. inversion Ho; subst. contradiction.
+    - injection H as <- <- <-. cbn. repeat split; auto. right.
+      split; [lia|]. split; [reflexivity|]. split; [reflexivity|].
+      intros _ Ho. inversion Ho; subst. contradiction.
+  Qed.
+
+  Definition pend_list (w : world) : list Z := match w_in w with Some r => r | None => [] end.
+
+  Lemma conn_decompress_spec fresh len (w : world) zin ret outp w' :
+    (0 < len)%nat -> IRr (w_i w) zin (w_fed w) ->
+    let inp := match w_in w with Some r => r | None => fresh end in
+    inp <> [] -> wf (zin ++ inp) ->
+    conn_decompress fresh len w = (ret, outp, w') ->
+    w_rx w' = w_rx w /\ w_fed w' = w_fed w /\ w_disc w' = w_disc w /\ w_fault w' = w_fault w /\
+    w_errno w' = w_errno w /\ w_error w' = w_error w /\
+    ret = Z.of_nat (length outp) /\ (length outp <= len)%nat /\
+    (exists zin', IRr (w_i w') zin' (w_fed w ++ outp) /\ zin' ++ pend_list w' = zin ++ inp) /\
+    pend_ok w' /\
+    (outp <> [] \/ (length (pend_list w') < length inp)%nat) /\
+    (w_in w' = None \/ length outp = len) /\
+    (forall r, w_in w = Some r -> resumable (w_i w) r -> outp <> []) /\
+    (length (pend_list w') <= length inp)%nat.
+  Proof.
+    intros Hlen HIR inp Hne Hwf H. unfold conn_decompress in H. fold inp in H.
+    destruct (inflate_step (w_i w) inp len) as [[[i' k] outp0] st] eqn:Eis.
+    destruct (zc_i_bounds _ _ _ _ _ _ _ _ _ HC _ _ _ _ _ _ _ _ _ HIR Hlen Eis) as [Hk Ho].
+    destruct (zc_i_ok _ _ _ _ _ _ _ _ _ HC _ _ _ _ _ _ _ _ _ HIR Hlen Hne Hwf Eis) as (Hst & Hprog & Hstop & _).
+    subst st.
+    assert (Eoob : Nat.ltb len (length outp0) || Nat.ltb (length inp) k = false).
+    { apply orb_false_iff; split; apply Nat.ltb_ge; lia. }
+    rewrite Eoob in H.
+    pose proof (IR_step _ inflate_step i0 _ _ _ _ _ _ _ _ _ HIR Hlen Eis) as HIR2.
+    set (rest := skipn k inp) in *.
+    assert (Hrl : length rest = (length inp - k)%nat) by (subst rest; apply skipn_length).
+    injection H as Er Eo Ew. subst ret outp0.
+    assert (Hres : forall r, w_in w = Some r -> resumable (w_i w) r -> outp <> []).
+    { intros r Hr Hres. subst inp. rewrite Hr in Eis. eapply Hres; eauto. }
+    destruct (is_nil rest) eqn:En.
+    - apply is_nil_true in En. subst w'. unfold pend_ok, pend_list. cbn.
+      repeat split; auto.
+      + exists (zin ++ firstn k inp). split; [exact HIR2|].
+        rewrite app_nil_r. f_equal. rewrite <- (firstn_skipn k inp) at 2. fold rest. rewrite En, app_nil_r. reflexivity.
+      + destruct Hprog as [Hp|Hp]; [right; destruct inp; cbn in *; [congruence | lia] | left; exact Hp].
+      + lia.
+    - apply is_nil_false in En. subst w'. unfold pend_ok, pend_list. cbn.
+      assert (Hkl : (k < length inp)%nat).
+      { destruct (Nat.lt_ge_cases k (length inp)); auto. exfalso. apply En. subst rest. apply skipn_all2. lia. }
+      repeat split; auto.
+      + exists (zin ++ firstn k inp). split; [exact HIR2|].
+        rewrite <- app_assoc. f_equal. apply firstn_skipn.
+      + intros room' i'' k' outp' st' Hr' E'.
+        eapply (zc_i_resume _ _ _ _ _ _ _ _ _ HC _ _ _ _ _ _ _ _ HIR Hlen Hwf Eis Hkl); eauto.
+      + destruct Hprog as [Hp|Hp]; [right; lia | left; exact Hp].
+      + right. destruct Hstop as [X|X]; [lia | exact X].
+      + lia.
+  Qed.
+
+  Lemma rx_weight_stream l : rx_weight l = length (rx_stream l).
+  Proof. induction l as [|[bs| |] l IH]; cbn; auto. rewrite app_length, IH. reflexivity. Qed.
+
+  Lemma read_loop_spec fuel : forall len (w : world) zs ret outp w',
+    (0 < len)%nat -> w_in w = None -> IInv w zs -> wf zs -> (rx_weight (w_rx w) < fuel)%nat ->
+    read_loop fuel len w = (ret, outp, w') -> w_fault w' = NoFault ->
+    IInvP w' zs (w_fed w ++ outp) /\ w_fed w' = w_fed w /\ (length outp <= len)%nat /\
+    (w_disc w = false -> only_data (w_rx w) -> only_data (w_rx w')) /\
+    (length (undecoded (w_in w') (w_rx w')) <= length (undecoded (w_in w) (w_rx w)))%nat /\
+    ((0 < ret /\ outp <> [] /\ w_disc w' = w_disc w /\ w_error w' = w_error w) \/
+     (ret <= 0 /\ outp = [] /\
+      (w_disc w = false -> only_data (w_rx w) ->
+         ret = -1 /\ w_errno w' = EAGAIN /\ w_rx w' = [] /\ w_in w' = None /\ w_disc w' = false /\ w_error w' = w_error w))) /\
+    (w_disc w = false -> only_data (w_rx w) -> w_rx w <> [] ->
+       outp <> [] \/ (length (undecoded (w_in w') (w_rx w')) < length (undecoded (w_in w) (w_rx w)))%nat).
+  Proof.
+    induction fuel as [|f IH]; intros len w zs ret outp w' Hlen Hin (zin & HIR & Hzs & Hpo) Hwf Hfuel H Hf; [lia|].
+    cbn [CompressionModel.read_loop] in H.
+    destruct (sock_read bufsz w) as [[n bs] w1] eqn:Esr.
+    apply sock_read_spec in Esr; [|exact Hbuf].
+    destruct Esr as (Si & Sin & Sfed & Sdisc & Sfault & Serr & Scase).
+    unfold undecoded in *. rewrite Hin in *. cbn [app] in *.
+    destruct (n <=? 0) eqn:En.
+    - apply Z.leb_le in En. injection H as <- <- <-.
+      destruct Scase as [(Hp & _)|(_ & Hbs & Hstream & Hdry)]; [lia|]. subst bs.
+      rewrite app_nil_r, Sin, Sfed. cbn [app].
+      split; [exists zin; unfold undecoded, pend_ok; rewrite Si, Sin, Hstream; cbn; repeat split; auto|].
+      split; [reflexivity|]. split; [cbn; lia|].
+      split; [intros Hd Ho; destruct (Hdry Hd Ho) as (_ & _ & _ & X); rewrite X; constructor|].
+      split; [rewrite Hstream; lia|].
+      split.
+      + right. split; [exact En|]. split; [reflexivity|].
+        intros Hd Ho. destruct (Hdry Hd Ho) as (X1 & X2 & X3 & X4). repeat split; congruence.
+      + intros Hd Ho Hne. destruct (Hdry Hd Ho) as (X1 & _). contradiction.
+    - apply Z.leb_gt in En.
+      destruct Scase as [(Hp & Hn & Hbs & Hbl & Hstream & Hod)|(Hp & _)]; [|lia].
+      destruct (conn_decompress bs len w1) as [[ret1 outp1] w2] eqn:Ecd.
+      pose proof (conn_decompress_light bs len w1) as [_ Mcd]. rewrite Ecd in Mcd. cbn [snd] in Mcd.
+      assert (HIR1 : IRr (w_i w1) zin (w_fed w1)) by (rewrite Si, Sfed; exact HIR).
+      assert (Hwf1 : wf (zin ++ bs)).
+      { apply (zc_wf_prefix _ _ _ _ _ _ _ _ _ HC _ (rx_stream (w_rx w1))). rewrite <- app_assoc, <- Hstream, <- Hzs. exact Hwf. }
+      apply (conn_decompress_spec _ _ _ zin) in Ecd; auto; rewrite ?Sin, ?Hin; auto.
+      destruct Ecd as (Drx & Dfed & Ddisc & Dfault & Derrno & Derr & Dret & Dlen & (zin' & HIR2 & Hdecomp) & Dpo & Dprog & Dstop & _ & Dple).
+      rewrite Sin in Hdecomp, Dprog, Dple.
+      assert (Hzs2 : zs = zin' ++ pend_list w2 ++ rx_stream (w_rx w2)).
+      { rewrite app_assoc, Hdecomp, Drx, <- app_assoc, <- Hstream. exact Hzs. }
+      destruct ((ret1 =? 0) && negb (w_disc w2) && is_none (w_in w2)) eqn:Eloop.
+      + (* nothing decoded yet: read on *)
+        apply andb_true_iff in Eloop. destruct Eloop as [Eloop E3]. apply andb_true_iff in Eloop. destruct Eloop as [E1 E2].
+        apply Z.eqb_eq in E1. apply negb_true_iff in E2.
+        assert (Hin2 : w_in w2 = None) by (destruct (w_in w2); [discriminate | reflexivity]).
+        assert (outp1 = []) by (destruct outp1; [reflexivity | cbn in Dret; lia]). subst outp1.
+        rewrite app_nil_r in HIR2. unfold pend_list in Hzs2, Dprog. rewrite Hin2 in Hzs2, Dprog. cbn [app] in Hzs2.
+        assert (I2 : IInv w2 zs).
+        { exists zin'. rewrite Dfed. split; [exact HIR2|]. split; [|exact Dpo].
+          unfold undecoded. rewrite Hin2. exact Hzs2. }
+        assert (Hfu : (rx_weight (w_rx w2) < f)%nat).
+        { rewrite rx_weight_stream in *. rewrite Drx.
+          rewrite Hstream, app_length in Hfuel. destruct bs; [congruence | cbn in Hfuel; lia]. }
+        destruct (IH len w2 zs ret outp w' Hlen Hin2 I2 Hwf Hfu H Hf) as (J1 & J2 & J3 & J4 & J5 & J6 & J7).
+        unfold undecoded in J5, J7. rewrite Hin2, Drx in J5, J7. cbn [app] in J5, J7.
+        rewrite Dfed, Sfed in J1, J2.
+        split; [exact J1|]. split; [exact J2|]. split; [exact J3|].
+        split; [intros Hd Ho; apply J4; [congruence | rewrite Drx; auto]|].
+        split; [eapply Nat.le_trans; [exact J5|]; rewrite Hstream, app_length; lia|].
+        split.
+        * destruct J6 as [(A & B & C & D)|(A & B & C)]; [left; repeat split; auto; congruence|].
+          right. split; [exact A|]. split; [exact B|]. intros Hd Ho.
+          destruct C as (C1 & C2 & C3 & C4 & C5 & C6); [congruence | rewrite Drx; auto|].
+          repeat split; auto; congruence.
+        * intros Hd Ho Hne. right. eapply Nat.le_lt_trans; [exact J5|]. rewrite Hstream, app_length.
+          destruct bs; [congruence | cbn; lia].
+      + injection H as <- <- <-.
+        assert (Hund : (length (pend_list w2 ++ rx_stream (w_rx w2)) <= length (rx_stream (w_rx w)))%nat).
+        { rewrite Hstream, !app_length, Drx. lia. }
+        assert (Hpl : pend_list w2 = match w_in w2 with Some r => r | None => [] end) by reflexivity.
+        rewrite <- Hpl.
+        split; [exists zin'; rewrite Sfed in HIR2; split; [exact HIR2|]; split; [|exact Dpo];
+                unfold undecoded; rewrite <- Hpl; exact Hzs2|].
+        split; [congruence|]. split; [exact Dlen|].
+        split; [intros Hd Ho; rewrite Drx; auto|].
+        split; [exact Hund|].
+        split.
+        * destruct outp1 as [|o1 outp1'].
+          -- right. cbn in Dret. split; [lia|]. split; [reflexivity|].
+             intros Hd _. exfalso. subst ret1.
+             rewrite Z.eqb_refl in Eloop. cbn [andb] in Eloop.
+             rewrite Ddisc, Sdisc, Hd in Eloop. cbn in Eloop.
+             destruct Dstop as [X|X]; [rewrite X in Eloop; discriminate | cbn in X; lia].
+          -- left. cbn in Dret. split; [lia|]. split; [congruence|]. split; congruence.
+        * intros Hd Ho Hne. destruct Dprog as [X|X]; [left; exact X | right].
+          rewrite Hstream, !app_length, Drx. lia.
+  Qed.
+
+  Lemma IInv_fed_le (w : world) zs fed : IInvP w zs fed -> prefix fed (dec zs).
+  Proof.
+    intros (zin & HIR & Hzs & _).
+    eapply prefix_trans; [eapply (zc_i_sound _ _ _ _ _ _ _ _ _ HC); exact HIR|].
+    rewrite Hzs. apply (zc_dec_mono _ _ _ _ _ _ _ _ _ HC).
+  Qed.
+
+  Lemma compression_read_spec len (w : world) zs ret outp w' :
+    (0 < len)%nat -> IInv w zs -> wf zs ->
+    compression_read len w = (ret, outp, w') -> w_fault w' = NoFault ->
+    IInvP w' zs (w_fed w ++ outp) /\ w_fed w' = w_fed w /\
+    (w_disc w = false -> only_data (w_rx w) -> only_data (w_rx w')) /\
+    (length (undecoded (w_in w') (w_rx w')) <= length (undecoded (w_in w) (w_rx w)))%nat /\
+    ((0 < ret /\ outp <> [] /\ w_disc w' = w_disc w /\ w_error w' = w_error w) \/
+     (ret <= 0 /\ outp = [] /\
+      (w_disc w = false -> only_data (w_rx w) ->
+         ret = -1 /\ w_errno w' = EAGAIN /\ w_rx w' = [] /\ w_in w' = None /\ w_disc w' = false /\ w_error w' = w_error w))) /\
+    (w_disc w = false -> only_data (w_rx w) -> (w_rx w <> [] \/ w_in w <> None) ->
+       outp <> [] \/ (length (undecoded (w_in w') (w_rx w')) < length (undecoded (w_in w) (w_rx w)))%nat).
+  Proof.
+    intros Hlen I Hwf H Hf. unfold compression_read in H.
+    destruct (w_in w) as [rest|] eqn:Ein.
+    - destruct I as (zin & HIR & Hzs & Hpo). unfold pend_ok in Hpo. rewrite Ein in Hpo. destruct Hpo as [Hne Hres].
+      unfold undecoded in Hzs. rewrite Ein in Hzs.
+      assert (Hwf1 : wf (zin ++ rest)).
+      { apply (zc_wf_prefix _ _ _ _ _ _ _ _ _ HC _ (rx_stream (w_rx w))). rewrite <- app_assoc, <- Hzs. exact Hwf. }
+      apply (conn_decompress_spec _ _ _ zin) in H; auto; rewrite ?Ein; auto.
+      destruct H as (Drx & Dfed & Ddisc & Dfault & Derrno & Derr & Dret & Dlen & (zin' & HIR2 & Hdecomp) & Dpo & Dprog & Dstop & Dres & Dple).
+      rewrite Ein in Hdecomp, Dple.
+      specialize (Dres rest Ein Hres).
+      assert (Hund : (length (undecoded (w_in w') (w_rx w')) <= length (undecoded (Some rest) (w_rx w)))%nat).
+      { unfold undecoded. fold (pend_list w'). rewrite !app_length, Drx. lia. }
+      split; [exists zin'; split; [exact HIR2|]; split; [|exact Dpo];
+              unfold undecoded; fold (pend_list w'); rewrite app_assoc, Hdecomp, Drx, <- app_assoc; exact Hzs|].
+      split; [exact Dfed|].
+      split; [intros; rewrite Drx; auto|].
+      split; [exact Hund|].
+      split; [left; split; [destruct outp; [congruence | cbn in Dret; lia]|]; split; [exact Dres|]; split; assumption|].
+      intros; left; exact Dres.
+    - assert (Hfu : (rx_weight (w_rx w) < S (rx_weight (w_rx w)))%nat) by lia.
+      destruct (read_loop_spec _ _ _ zs _ _ _ Hlen Ein I Hwf Hfu H Hf) as (J1 & J2 & J3 & J4 & J5 & J6 & J7).
+      rewrite Ein in J5, J7.
+      split; [exact J1|]. split; [exact J2|]. split; [exact J4|]. split; [exact J5|]. split; [exact J6|].
+      intros Hd Ho [X|X]; [apply J7; auto | congruence].
+  Qed.
+
+  Definition quiescent (w : world) : Prop := w_rx w = [] /\ w_in w = None.
+  Definition mu (w : world) (zs : list Z) : nat :=
+    (length (undecoded (w_in w) (w_rx w)) + (length (dec zs) - length (w_fed w)))%nat.
+
+  Lemma read_phase_spec (w : world) zs :
+    IInv w zs -> wf zs -> w_fault (read_phase w) = NoFault ->
+    IInv (read_phase w) zs /\
+    (w_disc w = false -> only_data (w_rx w) ->
+       w_disc (read_phase w) = false /\ w_error (read_phase w) = w_error w /\ only_data (w_rx (read_phase w)) /\
+       (quiescent w -> quiescent (read_phase w)) /\
+       (~ quiescent w -> (mu (read_phase w) zs < mu w zs)%nat)).
+  Proof.
+    intros I Hwf Hf. unfold read_phase in *.
+    destruct (w_disc w) eqn:Ed; [split; [exact I | intros; discriminate]|].
+    destruct (negb (is_nil (w_rx w)) || compression_pending w) eqn:Eact.
+    - destruct (compression_read msgsz w) as [[ret bs] w1] eqn:Ecr.
+      pose proof (compression_read_light msgsz w) as [_ Mcr]. rewrite Ecr in Mcr. cbn [snd] in Mcr.
+      assert (Hact : w_rx w <> [] \/ w_in w <> None).
+      { apply orb_true_iff in Eact. destruct Eact as [X|X].
+        - left. apply negb_true_iff, is_nil_false in X. exact X.
+        - right. unfold compression_pending in X. destruct (w_in w); [congruence | discriminate]. }
+      assert (Hf1 : w_fault w1 = NoFault).
+      { destruct (0 <? ret); [exact Hf|]. destruct (negb (recoverable (w_errno w1)));
+          [|destruct (ret =? 0)]; try exact Hf;
+          unfold conn_disconnect in Hf; cbn in Hf; destruct (w_disc w1); cbn in Hf; exact Hf. }
+      destruct (compression_read_spec _ _ zs _ _ _ Hmsg I Hwf Ecr Hf1) as (J1 & J2 & J3 & J5 & J6 & J7).
+      pose proof (IInv_fed_le _ _ _ J1) as Hple. apply prefix_length in Hple.
+      pose proof (IInv_fed_le _ _ _ I) as Hple0. apply prefix_length in Hple0.
+      destruct J6 as [(A & B & C & D)|(A & B & C)].
+      + assert (E : 0 <? ret = true) by (apply Z.ltb_lt; exact A). rewrite E.
+        set (w2 := log (EvP bs) (set_fed (w_fed w1 ++ bs) w1)).
+        assert (P : w_disc w2 = w_disc w1 /\ w_error w2 = w_error w1 /\ w_rx w2 = w_rx w1 /\ w_in w2 = w_in w1 /\
+                    w_fed w2 = w_fed w1 ++ bs /\ w_i w2 = w_i w1) by (subst w2; cbn; repeat split).
+        destruct P as (P1 & P2 & P3 & P4 & P5 & P6).
+        split.
+        * destruct J1 as (zin & K1 & K2 & K3). exists zin. unfold pend_ok in *. rewrite P3, P4, P5, P6, J2. repeat split; auto.
+        * intros _ Ho. split; [congruence|]. split; [congruence|]. split; [rewrite P3; apply J3; auto|].
+          split.
+          -- intros [Q1 Q2]. destruct Hact; contradiction.
+          -- intros _. unfold mu. rewrite P3, P4, P5, J2, app_length. rewrite app_length in Hple.
+             assert (0 < length bs)%nat by (destruct bs; [congruence | cbn; lia]). lia.
+      + assert (E : 0 <? ret = false) by (apply Z.ltb_ge; exact A). rewrite E. subst bs.
+        rewrite app_nil_r in J1.
+        assert (I1 : IInv w1 zs) by (unfold IInv; rewrite J2; exact J1).
+        split.
+        * destruct (negb (recoverable (w_errno w1))); [|destruct (ret =? 0)]; try exact I1;
+            destruct I1 as (zin & K1 & K2 & K3); exists zin; unfold conn_disconnect; cbn; destruct (w_disc w1); cbn;
+            repeat split; auto.
+        * intros _ Ho. destruct (C eq_refl Ho) as (C1 & C2 & C3 & C4 & C5 & C6).
+          rewrite C2. cbn. subst ret. cbn.
+          split; [exact C5|]. split; [exact C6|]. split; [rewrite C3; constructor|].
+          split; [intros _; split; assumption|].
+          intros _. unfold mu. rewrite J2.
+          destruct (J7 eq_refl Ho Hact) as [X|X]; [congruence | lia].
+    - split; [exact I|]. intros _ Ho. split; [exact Ed|]. split; [reflexivity|]. split; [exact Ho|].
+      split; [auto|]. intros Hnq. exfalso. apply Hnq.
+      apply orb_false_iff in Eact. destruct Eact as [X Y].
+      apply negb_false_iff, is_nil_true in X. unfold compression_pending in Y. apply negb_false_iff in Y.
+      split; [exact X|]. destruct (w_in w); [discriminate | reflexivity].
   Qed.
 End Staging.
